@@ -214,7 +214,7 @@ int flush_pubsub_msgs(void *data, const char *key, void *value) {
                 /* Same user data the event would carry if delivered by the loop */
                 msg->evt.userdata = mm->sub ? mm->sub->userptr : NULL;
                 m_queue_enqueue(flushed, msg);
-                if (mm->sub && (mm->sub->flags & M_SRC_ONESHOT)) {
+                if (mm->sub && (mm->sub->flags & M_SRC_ONESHOT) && m_map_get(mod->subscriptions, mm->sub->ps_src.topic) == mm->sub) {
                     /* Same as when the loop receives it: a oneshot subscription is gone with its first message */
                     m_map_remove(mod->subscriptions, mm->sub->ps_src.topic);
                 }
